@@ -287,6 +287,62 @@ def run(ctx):
                                     if repr(back) != repr(ref_back):
                                         ctx.violation("%s:%s:%s->%s:category-name-differs-from-quantity-type-name" % (kind, cqt, v, u), {"category": c, "by_category": repr(back), "by_quantity_type": repr(ref_back), "x": by_cat, "db": kind})
                 ctx.count("conversions addressed by category name", n_cat)
+            # the same container object converted twice with other contents in between (a table that is edited in place and
+            # asked again), and arrays too large for any "small array" path: every element is the float conversion of that element
+            if ctx.shard == 0:
+                import numpy as np
+
+                try:
+                    from barril.units import Array, ObtainQuantity
+                except Exception:
+                    Array = ObtainQuantity = None
+                by_qt = {}
+                for u, a in aff.items():
+                    if a.exact and a.slope:
+                        by_qt.setdefault(a.qt, []).append(u)
+                n_big = 0
+                for qt, us in sorted(by_qt.items()):
+                    if len(us) < 2 or qt == "Unknown":
+                        continue
+                    offs = [u for u in us if aff[u].off != 0.0]
+                    u, v = (offs[0], next(w for w in us if w != offs[0])) if offs else (us[0], us[-1])
+                    first, second = [1.0, 2.0, -3.0], [5000.0, 0.0, 12.5]
+                    for label, mk in (("list", list), ("ndarray", lambda z: np.array(z, dtype=float))):
+                        ctx.ev()
+                        try:
+                            want = [db.Convert(qt, u, v, x) for x in second]
+                            box = mk(first)
+                            cat = db.GetDefaultCategory(u) if ObtainQuantity is not None and kind == "posc" else None
+                            askers = [("UnitDatabase.Convert", lambda b: db.Convert(qt, u, v, b))]
+                            if cat:
+                                q = ObtainQuantity(u, cat)
+                                askers.append(("Quantity.Convert", lambda b: q.Convert(b, v)))
+                                if label == "ndarray":
+                                    arr = Array(q, box)
+                                    askers.append(("Array.GetValues (shared buffer)", lambda b: arr.GetValues(v)))
+                            for name, ask in askers:
+                                box[:] = first
+                                ask(box)
+                                box[:] = second
+                                got = [float(x) for x in ask(box)]
+                                if got != want:
+                                    ctx.violation("%s:%s:%s->%s:second-conversion-of-an-edited-container:%s[%s]" % (kind, qt, u, v, name, label), {"edited_to": second, "got": got, "want": want, "db": kind}, replay={"kind": kind, "qt": qt, "u": u, "v": v, "x": 12.5})
+                        except Exception as e:
+                            ctx.violation("%s:%s:%s->%s:edited-container-raised" % (kind, qt, u, v), {"error": repr(e)[:200], "db": kind})
+                    if n_big < 12:
+                        n_big += 1
+                        ctx.ev()
+                        big = np.arange(-35000, 35001, dtype=np.int64)
+                        try:
+                            got = np.asarray(db.Convert(qt, u, v, big), dtype=float)
+                            ref = np.asarray(db.Convert(qt, u, v, big.astype(float)), dtype=float)
+                            small = np.asarray(db.Convert(qt, u, v, big[:64]), dtype=float)
+                            ok = got.shape == ref.shape and np.array_equal(got, ref) and np.array_equal(got[:64], small) and all(float(got[i]) == db.Convert(qt, u, v, float(big[i])) for i in (0, 1, 34999, 35001, 36500, 70000))
+                        except Exception as e:
+                            ok = repr(e)
+                        if ok is not True:
+                            ctx.violation("%s:%s:%s->%s:large-integer-array" % (kind, qt, u, v), {"items": int(big.size), "problem": ok if ok is not False else "differs from the element-wise float conversion (or from the same amounts in a small array)", "db": kind}, replay={"kind": kind, "qt": qt, "u": u, "v": v, "x": 1500.0})
+                ctx.count("large integer arrays converted", n_big)
             # slope sign of every unit (strictly increasing maps)
             if ctx.shard == 0:
                 for u, a in aff.items():
